@@ -71,6 +71,12 @@ fn gen_package(c: &mut Choices<'_>, name: &str, dir: &str, member: bool) -> Pack
     if c.chance(1, 4) {
         targets.push(Target { path: "build.rs".into(), kind: "build".into(), explicit: false, edition: None });
     }
+    if c.chance(1, 5) {
+        // a file shared by two targets (an explicit example on the lib / bin root): passed once
+        if let Some(t) = targets.iter().find(|t| t.edition.is_none() && matches!(t.kind.as_str(), "lib" | "bin") && !t.explicit).cloned() {
+            targets.push(Target { path: t.path, kind: "example".into(), explicit: true, edition: None });
+        }
+    }
     Package { name: name.into(), dir: dir.into(), edition, targets, deps: vec![], member }
 }
 
@@ -159,7 +165,7 @@ impl Property for C18 {
         }
     }
     fn rule(&self) -> &'static str {
-        "generated workspaces (virtual or rooted, 1..4 members, lib / bin / explicit [[bin]] / example / test / bench / build-script targets, package and per-target editions incl. the default 2015, path dependencies inside the workspace and to packages outside it, transitively) x selection (current directory, -p names, --all, --manifest-path of a member spelled absolutely / relatively with `..` / with `./` / through a symlink, an unknown -p, a bad --manifest-path) x working directory (root or a member) x pass-through arguments, --check and --message-format; the real cargo-fmt runs with $RUSTFMT pointing at a recording stand-in whose k-th invocation fails on request; oracle (model computed from the generated manifests): the union of the files passed equals the root source files of all targets of the selected packages, every file is passed once, every invocation carries the edition of its targets and the pass-through arguments in order, cargo-fmt fails iff a stand-in invocation failed, and an unknown package or unusable manifest is an error before any invocation; non-trivial = at least two editions among the selected targets and a path dependency or explicit target; distinct by case content"
+        "generated workspaces (virtual or rooted, 1..4 members, lib / bin / explicit [[bin]] / example / test / bench / build-script targets, a source file shared by two targets, package and per-target editions incl. the default 2015, path dependencies inside the workspace and to packages outside it, transitively) x selection (current directory, -p names, --all, --manifest-path of a member spelled absolutely / relatively with `..` / with `./` / through a symlink, an unknown -p, a bad --manifest-path) x working directory (root or a member) x pass-through arguments, --check and --message-format; the real cargo-fmt runs with $RUSTFMT pointing at a recording stand-in whose k-th invocation fails on request; oracle (model computed from the generated manifests): the union of the files passed equals the root source files of all targets of the selected packages, every file is passed once, every invocation carries the edition of its targets and the pass-through arguments in order, cargo-fmt fails iff a stand-in invocation failed, and an unknown package or unusable manifest is an error before any invocation; non-trivial = at least two editions among the selected targets and a path dependency or explicit target; distinct by case content"
     }
     fn assumptions(&self) -> Vec<&'static str> {
         vec![
